@@ -82,7 +82,7 @@ func TestC12(t *testing.T) {
 	model := c12Model.On(col, "rapid: well-formed programs interleaving assign, capture, for/tablerow (shadowing outer names and forloop; ended normally and by break), if/unless/case, cycle, followed by a read of every variable; oracle: reference model (flat per-render variable map, loop variable and forloop saved and restored). Non-trivial: expected output fully specified and the program assigns/captures and has a loop or conditional; distinct by template+bindings", false)
 	prof := hx.FullProfile()
 	prof.Tablerow = true
-	col.Rapid(model.Sub, env.PerShard(env.Pick(20000, 1000000)), func(t *rapid.T) {
+	col.Rapid(model.Sub, env.PerShard(env.Pick(150000, 1500000)), func(t *rapid.T) {
 		p := hx.GenProgram(t, prof)
 		p.Nodes = append(p.Nodes, probes()...)
 		c := &progCase{P: p, Sp: hx.GenSpacing(t, "sp")}
@@ -94,7 +94,7 @@ func TestC12(t *testing.T) {
 	capt := c12Capture.On(col, "rapid: any self-contained fragment F from the general generator (block-balanced, no break/continue escaping F), with random whitespace-control hyphens; metamorphic oracle: render(F) == render({% capture cv %}F{% endcapture %}{{ cv }}), both fail or equal bytes. Non-trivial: >= 3 nodes, renders successfully to non-empty output; distinct by fragment+bindings", false)
 	prof2 := hx.FullProfile()
 	prof2.Tablerow, prof2.MapLoops, prof2.WSText = true, false, true
-	col.Rapid(capt.Sub, env.PerShard(env.Pick(20000, 1000000)), func(t *rapid.T) {
+	col.Rapid(capt.Sub, env.PerShard(env.Pick(150000, 1500000)), func(t *rapid.T) {
 		p := hx.GenProgram(t, prof2)
 		c := &c12CapCase{P: p}
 		if rapid.Bool().Draw(t, "hyphens") {
